@@ -339,7 +339,10 @@ def resolve(ops):
 
 
 RICH_ANN = ["a10", "a2", "B"]      # alphabetical order differs from numeric and from case-insensitive order
-RICH_SEGS = [(0.0, 1.0), (0.0, 2.0), (1.0, 2.0), (-3.0, -1.0), (0.5, 7.25), (2.0, 2.0), (3.0, 3.0000005), (5.0, 4.0)]
+RICH_SEGS = [(0.0, 1.0), (0.0, 2.0), (1.0, 2.0), (-3.0, -1.0), (0.5, 7.25), (2.0, 2.0), (3.0, 3.0000005), (5.0, 4.0),
+             # values a float32 cannot tell apart, and integer boundaries beyond 2**53 (nanosecond time stamps): exact types matter
+             (1000.0, 16777217.0), (1000.0, 16777216.0), (16777216.0, 16777218.0), (16777217.0, 16777218.0),
+             (1700000000000000300, 1700000000000001100), (1700000000000000301, 1700000000000001100)]
 RICH_LABELS = [None, "x", "y"]
 
 
@@ -354,7 +357,7 @@ def random_history(rng, length):
         elif r < 0.47:
             ops.append(("addann", i, rng.choice(RICH_ANN)))
         elif r < 0.72:
-            ops.append(("remove", i, rng.choice(RICH_ANN), rng.choice(RICH_SEGS[:5]), rng.choice(RICH_LABELS)))
+            ops.append(("remove", i, rng.choice(RICH_ANN), rng.choice(RICH_SEGS[:5] + RICH_SEGS[8:]), rng.choice(RICH_LABELS)))
         elif r < 0.78 and n_live < 5:
             ops.append(("copy", i))
             n_live += 1
